@@ -260,29 +260,54 @@ def r_C14d(root):
     ok = lp is not None and isinstance(lp.target, ast.Name) and lp.target.id == ov and "_user_class_inst" in fi.text(lp.iter, at=lp.iter) and not any(isinstance(a, (ast.For, ast.While)) for a in ancestors(c) if a is not lp and lp in list(ancestors(a)))
     ob("C14", "C14.d", M, W, "one __init__ call per element of the parser's user-object list", ok)
     if not ok: out.append(Finding("C14", "C14.d", M, W, " ".join(ast.unparse(c).split()), "the postponed __init__ is not called exactly once for each object of the parser's user-object list"))
-    # kwargs
+    # kwargs: which collected names reach __init__?  The filter condition is located (comprehension filter, or the conditions
+    # under which a loop stores into the dict that is passed as **) and evaluated for sample names
     inst += 1
+    from sa import pyeval
     kw = [k for k in c.keywords if k.arg is None]
-    okk = False; shown = ast.unparse(c)
-    if len(kw) == 1 and not c.args and len(c.keywords) == 1:
-        v = fi.expand(kw[0].value, at=c); shown = " ".join(ast.unparse(v).split())
-        def single_def(name_node, at):
-            nd = fi.node_of(at); ds = fi.rd.defs_of(nd, name_node.id) if nd is not None else []
-            if len(ds) == 1 and fi.cfg.nodes[ds[0]].kind == "stmt" and isinstance(fi.cfg.nodes[ds[0]].ast, ast.Assign): return fi.cfg.nodes[ds[0]].ast
-            return None
-        if isinstance(v, ast.Name):                      # `attrs = {k: v for k, v in attrs.items() if ...}`: the filter re-binds the record's name
-            d = single_def(v, c)
-            if d is not None:
-                v = d.value; shown = " ".join(ast.unparse(v).split())
-                if isinstance(v, ast.DictComp):
-                    src = next((x for x in ast.walk(v.generators[0].iter) if isinstance(x, ast.Name)), None)
-                    d0 = single_def(src, d) if src is not None else None
-                    if d0 is not None and "_tx_obj_attrs" in ast.unparse(d0.value): shown += "  [over " + " ".join(ast.unparse(d0.value).split()) + "]"
-        if isinstance(v, ast.DictComp) and len(v.generators) == 1 and len(v.generators[0].ifs) >= 1:
-            g = v.generators[0]; cond = " ".join(ast.unparse(ast.BoolOp(op=ast.And(), values=g.ifs) if len(g.ifs) > 1 else g.ifs[0]).split())
-            kn = g.target.elts[0].id if isinstance(g.target, ast.Tuple) and isinstance(g.target.elts[0], ast.Name) else None
-            parts = {x.strip() for x in cond.split(" or ")}
-            okk = kn is not None and ast.unparse(v.key) == kn and parts == {"%s in %s.__class__._tx_attrs" % (kn, ov), "%s == 'parent'" % kn} and ("_tx_obj_attrs" in ast.unparse(fi.expand(g.iter, at=c)) or "_tx_obj_attrs" in shown)
+    okk = False; shown = " ".join(ast.unparse(c).split())
+    def single_def(name_node, at):
+        nd = fi.node_of(at); ds = fi.rd.defs_of(nd, name_node.id) if nd is not None else []
+        defs_ = [fi.cfg.nodes[d].ast for d in ds if fi.cfg.nodes[d].kind == "stmt" and isinstance(fi.cfg.nodes[d].ast, ast.Assign)]
+        return defs_
+    cond = None; keyvar = None
+    if len(kw) == 1 and not c.args and len(c.keywords) == 1 and isinstance(kw[0].value, (ast.Name, ast.DictComp)):
+        v = kw[0].value
+        if isinstance(v, ast.Name):
+            ds = single_def(v, c)
+            comp = [d.value for d in ds if isinstance(d.value, ast.DictComp)]
+            if len(ds) == 1 and comp: v = comp[0]
+            else:
+                # loop form:  K = {} ... for k, val in <record>.items(): if <cond>: K[k] = val
+                stores = [n for n in own_nodes(fn) if isinstance(n, ast.Assign) and len(n.targets) == 1 and isinstance(n.targets[0], ast.Subscript) and isinstance(n.targets[0].value, ast.Name) and n.targets[0].value.id == v.id]
+                if len(stores) == 1 and isinstance(stores[0].targets[0].slice, ast.Name):
+                    keyvar = stores[0].targets[0].slice.id
+                    parts = []
+                    for a_, pol in fi.atoms_at(stores[0]):
+                        try: e_ = ast.parse(a_, mode="eval").body
+                        except SyntaxError: continue
+                        if keyvar in {x.id for x in ast.walk(e_) if isinstance(x, ast.Name)}: parts.append(e_ if pol else ast.UnaryOp(op=ast.Not(), operand=e_))
+                    if parts: cond = parts[0] if len(parts) == 1 else ast.BoolOp(op=ast.And(), values=parts)
+                    shown = "for ...: if %s: %s" % (" and ".join(ast.unparse(p_) for p_ in parts), " ".join(ast.unparse(stores[0]).split()))
+        if isinstance(v, ast.DictComp) and len(v.generators) == 1:
+            g = v.generators[0]
+            if isinstance(g.target, ast.Tuple) and isinstance(g.target.elts[0], ast.Name) and ast.unparse(v.key) == g.target.elts[0].id and g.ifs:
+                keyvar = g.target.elts[0].id; cond = g.ifs[0] if len(g.ifs) == 1 else ast.BoolOp(op=ast.And(), values=list(g.ifs)); shown = " ".join(ast.unparse(v).split())
+    if cond is not None:
+        want = {"a": True, "parent": True, "_tx_position": False, "extra": False}; got = {}
+        try:
+            for key in want:
+                env = {keyvar: key, "%s.__class__._tx_attrs" % ov: {"a": 1}, "type(%s)._tx_attrs" % ov: {"a": 1}, "%s._tx_attrs" % ov: {"a": 1}}
+                # local aliases of the class / its attribute table
+                for x in ast.walk(cond):
+                    if isinstance(x, ast.Name) and x.id not in env:
+                        ex = fi.expand(ast.Name(id=x.id, ctx=ast.Load()), at=c)
+                        if not isinstance(ex, ast.Name):
+                            try: env[x.id] = pyeval.evaluate(ex, env)
+                            except pyeval.Unsupported: pass
+                got[key] = bool(pyeval.evaluate(cond, env))
+            okk = got == want
+        except pyeval.Unsupported as e: raise AnalysisError("_end_model_construction: filter of the __init__ arguments outside the evaluated subset: %s" % e)
     ob("C14", "C14.d", M, W, "__init__ keyword arguments: %s" % shown[:120], okk)
     if not okk: out.append(Finding("C14", "C14.d", M, W, shown[:100], "the postponed __init__ does not receive exactly the collected values of the rule's attributes plus parent (filter: name in the class's _tx_attrs or name == 'parent')", witness="user class whose __init__ takes exactly the rule's attributes (and **kwargs-free)"))
     # after restore
